@@ -433,7 +433,8 @@ def run_property(prop, modname, tier, meta, jobs=None, only=None):
     cp = subprocess.run([sys.executable, "-W", "ignore", "-m", "conformance.run"] + (["--smoke"] if tier == "quick" else []),
                         cwd=ROOT, capture_output=True, text=True)
     try:
-        meta["conformance"] = json.load(open(os.path.join(ROOT, "conformance", "result.json")))
+        _ev = os.environ.get("VERIF_EVIDENCE_DIR")
+        meta["conformance"] = json.load(open(os.path.join(_ev, "conformance_result.json") if _ev else os.path.join(ROOT, "conformance", "result.json")))
     except Exception:  # noqa: BLE001
         meta["conformance"] = {"cases": 0, "failures": ["conformance run produced no result: " + cp.stderr[-300:]]}
     mod = importlib.import_module(modname)
